@@ -228,6 +228,11 @@ NoOpts == [size |-> <<>>, sri |-> <<>>, time |-> "DEFAULT", meta |-> "DEFAULT", 
 \* The commit sequence shared by every write path:
 \*   publish content ; check declared integrity ; check declared size ; insert index record
 \* keyopt: Option(key); d: the data; n: bytes written; o: opts
+\* A record the index readers could not parse back is refused by the insertion (the byte-level
+\* fact - metadata nested deeper than the JSON reader's recursion limit - is supplied with the
+\* options as storable = FALSE): the index directories exist afterwards, nothing is appended.
+Storable(o) == IF "storable" \in DOMAIN o THEN o.storable ELSE TRUE
+
 CommitEffect(op, keyopt, algo, d, n, o, pubStore) ==
     LET addr == [a |-> algo, d |-> d]
         sriC == <<addr>> IN
@@ -238,6 +243,8 @@ CommitEffect(op, keyopt, algo, d, n, o, pubStore) ==
        THEN res' = ErrSize(o.size[1], n) /\ UNCHANGED <<buckets, hasIndex>>
        ELSE IF keyopt = <<>>
        THEN res' = Ok(sriC) /\ UNCHANGED <<buckets, hasIndex>>
+       ELSE IF ~Storable(o)
+       THEN res' = Err("Serde") /\ hasIndex' = TRUE /\ UNCHANGED buckets
        ELSE LET e == [key  |-> keyopt[1],
                       sri  |-> IF o.sri # <<>> THEN o.sri ELSE sriC,
                       time |-> TimeOf(o, op),
@@ -326,10 +333,12 @@ IndexInsert(op) ==
         e == [key |-> op.key, sri |-> o.sri, time |-> TimeOf(o, op),
               size |-> IF o.sizes # "DEFAULT" THEN o.sizes ELSE "0",   \* raw insert: verbatim
               meta |-> MetaOf(o), raw |-> RawOf(o)] IN
-    /\ NowOk(o, op)
-    /\ buckets' = AppendTo(buckets, op.key, e)
-    /\ hasIndex' = TRUE
-    /\ res' = Ok(IF o.sri # <<>> THEN o.sri ELSE DeadBeef)
+    /\ IF ~Storable(o)
+       THEN res' = Err("Serde") /\ hasIndex' = TRUE /\ UNCHANGED buckets
+       ELSE /\ NowOk(o, op)
+            /\ buckets' = AppendTo(buckets, op.key, e)
+            /\ hasIndex' = TRUE
+            /\ res' = Ok(IF o.sri # <<>> THEN o.sri ELSE DeadBeef)
     /\ UNCHANGED <<store, ext, tmp, hd>>
 
 (* ---- removal ------------------------------------------------------------------- *)
